@@ -14,14 +14,14 @@ func vInRange(n proto.ChannelNumber) bool { return vAnd(n >= 0x4000, n <= 0x7FFF
 //
 //verif:props=C08 bounds="all 2^16 channel numbers x3; IPv4/IPv6 peers with all ports; table of <=2 prior bindings built by real calls"
 func VerifHarness_C08_bind_step() {
-	a, _, _ := vNewAlloc(nil)
-	log := &vLogger{}
+	a, _, _ := VNewAlloc(nil)
+	log := &VLogger{}
 	n1, n2, n3 := proto.ChannelNumber(vU16()), proto.ChannelNumber(vU16()), proto.ChannelNumber(vU16())
-	p1, p2, p3 := vUDPAddr(), vUDPAddr(), vUDPAddr()
+	p1, p2, p3 := VUDPAddr(), VUDPAddr(), VUDPAddr()
 	e1 := a.AddChannelBind(NewChannelBind(n1, p1, log), 600e9, 300e9)
 	e2 := a.AddChannelBind(NewChannelBind(n2, p2, log), 600e9, 300e9)
 	// what the table must be now (reference model)
-	same12 := vSameUDP(p1, p2)
+	same12 := VSameUDP(p1, p2)
 	vAssert((e1 == nil) == vInRange(n1), "C08.first_bind_ok_iff_number_in_range")
 	conf2 := vAnd(e1 == nil, vOr(vAnd(n1 == n2, !same12), vAnd(n1 != n2, same12)))
 	vAssert((e2 != nil) == vOr(!vInRange(n2), conf2), "C08.conflict_iff_rejected")
@@ -46,7 +46,7 @@ func VerifHarness_C08_bind_step() {
 		for j := i + 1; j < len(a.channelBindings); j++ {
 			bj := a.channelBindings[j]
 			vAssert(bi.Number != bj.Number, "C08.numbers_distinct")
-			vAssert(!vSameUDP(bi.Peer.(*net.UDPAddr), bj.Peer.(*net.UDPAddr)), "C08.peers_distinct")
+			vAssert(!VSameUDP(bi.Peer.(*net.UDPAddr), bj.Peer.(*net.UDPAddr)), "C08.peers_distinct")
 		}
 	}
 	vCover(e3 == ErrSamePeerDifferentChannel, "C08.cover_same_peer_conflict")
